@@ -7,7 +7,7 @@ RULE = (
     "every combination of 18 item delimiters (, ; tab | blank : ' \" \\ a 1 # ~ ae CR LF FF euro) x the 20 permitted quote characters x "
     "2 escape characters x 2 quoting modes x 4 line delimiters is offered to Cid.read; for each accepted format tables "
     "of 0-5 rows x 1-4 columns over an alphabet made of that format's delimiter, quote, escape, blank, LF, CR, CRLF, the "
-    "empty string and two letters are written with DelimitedRowWriter and read back with delimited_rows, and (every 4th "
+    "empty string and two letters are written with DelimitedRowWriter and read back with delimited_rows (through streams and, for a third of the formats, through real files), and (every 4th "
     "table) written with cutplace.Writer and read with cutplace.rows under an all-Text CID. The oracle is the round trip "
     "itself (identical table). A case is (format tuple, table), distinct by digest, non-trivial when the table contains a "
     "configured special character. Formats refused by the loader are counted, not judged (C11 owns them)."
@@ -55,11 +55,11 @@ def gen_table(rng, fmt):
     return ncols, table
 
 
-def check(ctx, fmt, ncols, table, via_validating_api):
+def check(ctx, fmt, ncols, table, via_validating_api, via_file=False):
     import cutplace
     from cutplace import errors, interface, rowio
 
-    case = {"format": list(fmt), "ncols": ncols, "table": table, "api": "Writer/rows" if via_validating_api else "rowio"}
+    case = {"format": list(fmt), "ncols": ncols, "table": table, "api": "Writer/rows" if via_validating_api else ("rowio-file" if via_file else "rowio")}
     cid = interface.Cid()
     try:
         cid.read("<c12>", cid_rows(fmt, ncols))
@@ -79,6 +79,17 @@ def check(ctx, fmt, ncols, table, via_validating_api):
             cid2 = interface.Cid()
             cid2.read("<c12>", cid_rows(fmt, ncols))
             back = list(cutplace.rows(cid2, io.StringIO(text, newline="")))
+        elif via_file:
+            import os
+
+            path = os.path.join(ctx.tmp, "roundtrip.csv")
+            writer = rowio.DelimitedRowWriter(path, data_format)
+            writer.write_rows(table)
+            writer.close()
+            with open(path, encoding="utf-8", newline="") as f:
+                text = f.read()
+            back = list(rowio.delimited_rows(path, data_format))
+            ctx.count("roundtrips.via-file")
         else:
             out = io.StringIO(newline="")
             writer = rowio.DelimitedRowWriter(out, data_format)
@@ -110,11 +121,11 @@ def run(ctx):
         ctx.count("formats.offered")
         for t in range(per_format):
             ncols, table = gen_table(rng, fmt)
-            if not check(ctx, fmt, ncols, table, via_validating_api=(t % 4 == 1)):
+            if not check(ctx, fmt, ncols, table, via_validating_api=(t % 4 == 1), via_file=(t % 4 == 0 and index % 3 == 0)):
                 break
         else:
             ctx.count("formats.accepted")
 
 
 def replay(ctx, case):
-    check(ctx, tuple(case["format"]), case["ncols"], case["table"], case["api"] != "rowio")
+    check(ctx, tuple(case["format"]), case["ncols"], case["table"], case["api"] == "Writer/rows", case["api"] == "rowio-file")
